@@ -745,13 +745,15 @@ fn reduce_table_bytes(
                     num_num
                 )
             } else {
+                // There are rows, so folding from NaN, which min drops,
+                // gives what reduce gives by folding from the first row
                 all_gs!(
                     xs,
                     ys,
                     to_left(min::num_num),
                     min::com_x,
-                    f64::INFINITY,
-                    f64::INFINITY,
+                    f64::NAN,
+                    f64::NAN,
                     byte_fill,
                     byte_byte,
                     generic
@@ -773,13 +775,15 @@ fn reduce_table_bytes(
                     num_num
                 )
             } else {
+                // There are rows, so folding from NaN, which max drops,
+                // gives what reduce gives by folding from the first row
                 all_gs!(
                     xs,
                     ys,
                     to_left(max::num_num),
                     max::com_x,
-                    f64::NEG_INFINITY,
-                    f64::NEG_INFINITY,
+                    f64::NAN,
+                    f64::NAN,
                     byte_fill,
                     byte_byte,
                     generic
@@ -936,6 +940,14 @@ macro_rules! reduce_table_math {
             match f_prim {
                 Primitive::Add => all_gs!(add::$f, add::com_x, 0.0, 0.0),
                 Primitive::Mul => all_gs!(mul::$f, mul::com_x, 1.0, 0.0),
+                // Min and max drop a NaN argument, so folding from NaN gives
+                // what reduce gives by folding from the first row
+                Primitive::Min if xs.row_count() > 0 => {
+                    all_gs!(min::$f, min::com_x, f64::NAN, f64::NAN)
+                }
+                Primitive::Max if xs.row_count() > 0 => {
+                    all_gs!(max::$f, max::com_x, f64::NAN, f64::NAN)
+                }
                 Primitive::Min => all_gs!(min::$f, min::com_x, f64::INFINITY, f64::INFINITY),
                 Primitive::Max => {
                     all_gs!(max::$f, max::com_x, f64::NEG_INFINITY, f64::NEG_INFINITY)
